@@ -138,6 +138,20 @@ def run_property(P, tier, seed, replay=None):
         obligations += n
         broken.append(("proof", b.what, b.detail))
 
+    # thorough: the compiled theorems are re-checked by the independent checker (coqchk), which also reports
+    # the axioms of everything they depend on; and the release profile (no debug assertions, wrapping arithmetic)
+    # of the harness is exercised as well
+    coqchk = None
+    if tier == "thorough" and proof is not None and not replay:
+        obligations += 1
+        try:
+            coqchk = core.coqchk(P.id)
+            discharged += 1
+        except Broken as b:
+            broken.append(("coqchk", b.what, b.detail))
+    if tier == "thorough" and not hasattr(P, "custom_impl") and "release" not in P.profiles and getattr(P, "release_in_thorough", True):
+        P.profiles = tuple(P.profiles) + ("release",)
+
     # 2. builds
     exes = {}
     try:
@@ -282,6 +296,7 @@ def run_property(P, tier, seed, replay=None):
         "theorems": (proof or {}).get("theorems", []),
         "theorems_note": P.theorems_note,
         "axioms_used": (proof or {}).get("axioms", []),
+        "coqchk": coqchk,
         "evaluations": evaluations,
         "distinct_nontrivial": len(nontrivial),
         "rule": P.nontrivial_rule,
